@@ -28,6 +28,96 @@ SMALL_BYTES = [39, 34, 92, 10, 97, 0, 13, 255, 110]
 ACTS = ['skip', 'skip', 'xfail', 'xfail', 'uxsuccess', 'failure', 'error', 'interrupt']
 
 
+import enum
+
+
+class Color(enum.Enum):
+    RED = 1
+    BLUE = 2
+
+
+class _Plain:
+    """hashable, no ordering"""
+
+    def __init__(self, n):
+        self.n = n
+
+    def __repr__(self):
+        return '<plain %d>' % self.n
+
+
+OBJKEY, OBJKEY2 = _Plain(1), _Plain(2)
+
+
+class AnyEq:
+    """== answers True to everything (unittest.mock.ANY-like)"""
+
+    def __eq__(self, other):
+        return True
+
+    def __ne__(self, other):
+        return False
+
+    def __hash__(self):
+        return 1
+
+    def __repr__(self):
+        return '<ANY>'
+
+
+class NeverEq:
+    """== answers False to everything, itself included (NaN-like)"""
+
+    def __eq__(self, other):
+        return False
+
+    def __ne__(self, other):
+        return True
+
+    def __hash__(self):
+        return 2
+
+    def __repr__(self):
+        return '<NEVER>'
+
+
+class ArrayLike:
+    """== is element-wise and its result has no truth value when it has not exactly one element (numpy-like)"""
+
+    def __init__(self, xs):
+        self.xs = list(xs)
+
+    def __eq__(self, other):
+        return _Truth([x == other for x in self.xs])
+
+    def __ne__(self, other):
+        return _Truth([x != other for x in self.xs])
+
+    __hash__ = None
+
+    def __len__(self):
+        return len(self.xs)
+
+    def __iter__(self):
+        return iter(self.xs)
+
+    def __repr__(self):
+        return 'array(%r)' % self.xs
+
+
+class _Truth:
+    def __init__(self, bs):
+        self.bs = bs
+
+    def __bool__(self):
+        if len(self.bs) != 1:
+            raise ValueError('The truth value of an array with more than one element is ambiguous')
+        return bool(self.bs[0])
+
+    def __repr__(self):
+        return 'array(%r)' % self.bs
+
+
 def ctor_table():
     """[(name in testtools.matchers.__all__, [factory, ...])]: every stock matcher with the legal shapes of the constructor
     arguments that its __str__ / the describe() of its mismatches interpolate (tuple of length 0/1/2, list, set, frozenset,
@@ -43,16 +133,19 @@ def ctor_table():
     class Example:
         a = (1, 2)
         b = 'x'
+    # round e: falsy-but-valid expected values, objects whose == is not an honest Boolean, keys of ONE type without an order
+    falsy = [0, False, True, '', b'', [], {}, set(), AnyEq(), NeverEq(), ArrayLike([1, 2]), ArrayLike([])]
+    K1, K2 = (1, 'a'), ('a', 1)
     T = [
-        ('Equals', [lambda x=x: M.Equals(x) for x in shapes]),
-        ('NotEquals', [lambda x=x: M.NotEquals(x) for x in shapes]),
-        ('Is', [lambda x=x: M.Is(x) for x in shapes]),
+        ('Equals', [lambda x=x: M.Equals(x) for x in shapes + falsy]),
+        ('NotEquals', [lambda x=x: M.NotEquals(x) for x in shapes + falsy]),
+        ('Is', [lambda x=x: M.Is(x) for x in shapes + falsy]),
         ('LessThan', [lambda x=x: M.LessThan(x) for x in shapes]),
         ('GreaterThan', [lambda x=x: M.GreaterThan(x) for x in shapes]),
         ('SameMembers', [lambda x=x: M.SameMembers(x) for x in ([], [1, (1, 2)], (), (1,), (1, 2), {1, 2}, 'ab', b'ab')]),
         ('StartsWith', [lambda x=x: M.StartsWith(x) for x in ('', 'a', 'caf\xe9\n', b'a', b'\xff\n', ('a', 'b'), ())]),
         ('EndsWith', [lambda x=x: M.EndsWith(x) for x in ('', 'a', 'caf\xe9\n', b'a', b'\xff\n', ('a', 'b'), ())]),
-        ('Contains', [lambda x=x: M.Contains(x) for x in shapes]),
+        ('Contains', [lambda x=x: M.Contains(x) for x in shapes + falsy]),
         ('ContainsAll', [lambda x=x: M.ContainsAll(x) for x in ([], [1, 2], (), (1,), ((1, 2), 'a'), {1}, frozenset([1, 2]), 'ab')]),
         ('IsInstance', [lambda: M.IsInstance(), lambda: M.IsInstance(int), lambda: M.IsInstance(int, str), lambda: M.IsInstance(tuple)]),
         ('HasLength', [lambda: M.HasLength(0), lambda: M.HasLength(2)]),
@@ -60,7 +153,9 @@ def ctor_table():
         ('Never', [lambda: M.Never()]),
         ('KeysEqual', [lambda: M.KeysEqual(), lambda: M.KeysEqual('a'), lambda: M.KeysEqual('a', 'b'), lambda: M.KeysEqual({'a': 1, 'b': 2}),
                        lambda: M.KeysEqual((1, 2), (3,)), lambda: M.KeysEqual(1, 2), lambda: M.KeysEqual('caf\xe9'),
-                       lambda: M.KeysEqual(1, 'a'), lambda: M.KeysEqual(None, 'a'), lambda: M.KeysEqual((1, 2), 'a', b'k', None, 1)]),
+                       lambda: M.KeysEqual(1, 'a'), lambda: M.KeysEqual(None, 'a'), lambda: M.KeysEqual((1, 2), 'a', b'k', None, 1),
+                       lambda: M.KeysEqual(K1, K2), lambda: M.KeysEqual(1j, 2j), lambda: M.KeysEqual(Color.RED, Color.BLUE), lambda: M.KeysEqual(K1, K2, 1j, Color.RED, OBJKEY, 0, False, ''),
+                       lambda: M.KeysEqual(0), lambda: M.KeysEqual(''), lambda: M.KeysEqual(False, None)]),
         ('MatchesAll', [lambda: M.MatchesAll(), lambda: M.MatchesAll(M.Equals((1, 2)), M.Never()),
                         lambda: M.MatchesAll(M.Never(), M.Equals(()), first_only=True)]),
         ('MatchesAny', [lambda: M.MatchesAny(), lambda: M.MatchesAny(M.Equals((1,)), M.Never())]),
@@ -76,11 +171,15 @@ def ctor_table():
         ('MatchesStructure', [lambda: M.MatchesStructure(), lambda: M.MatchesStructure(args=M.Equals((1,))), lambda: M.MatchesStructure.byEquality(a=(1, 2), b='x'),
                               lambda: M.MatchesStructure.fromExample(Example, 'a', 'b'), lambda: M.MatchesStructure(a=M.Never(), b=M.Never()).update(b=None)]),
         ('MatchesDict', [lambda: M.MatchesDict({}), lambda: M.MatchesDict({'a': M.Equals((1, 2)), 'caf\xe9': M.Never()}), lambda: M.MatchesDict({1: M.Never(), 2: M.Equals(())}),
-                         lambda: M.MatchesDict({1: M.Never(), 'a': M.Equals(2)}), lambda: M.MatchesDict({None: M.Never(), 'a': M.Never(), (1, 2): M.Never(), b'k': M.Never()})]),
+                         lambda: M.MatchesDict({1: M.Never(), 'a': M.Equals(2)}), lambda: M.MatchesDict({None: M.Never(), 'a': M.Never(), (1, 2): M.Never(), b'k': M.Never()}),
+                         lambda: M.MatchesDict({K1: M.Never(), K2: M.Never()}), lambda: M.MatchesDict({1j: M.Never(), 2j: M.Equals(0), Color.RED: M.Never(), Color.BLUE: M.Never(), OBJKEY: M.Never(), OBJKEY2: M.Never()}),
+                         lambda: M.MatchesDict({0: M.Equals(0), '': M.Equals(''), False: M.Never()})]),
         ('ContainsDict', [lambda: M.ContainsDict({}), lambda: M.ContainsDict({'a': M.Equals((1, 2)), 'z': M.Never()}), lambda: M.ContainsDict({(1, 2): M.Never()}),
-                          lambda: M.ContainsDict({1: M.Equals(1), 'a': M.Equals(2), None: M.Never()})]),
+                          lambda: M.ContainsDict({1: M.Equals(1), 'a': M.Equals(2), None: M.Never()}),
+                          lambda: M.ContainsDict({K1: M.Never(), K2: M.Never(), 1j: M.Never(), 2j: M.Never()})]),
         ('ContainedByDict', [lambda: M.ContainedByDict({}), lambda: M.ContainedByDict({'a': M.Never()}), lambda: M.ContainedByDict({b'k': M.Equals(1)}),
-                             lambda: M.ContainedByDict({1: M.Never(), 'a': M.Never()})]),
+                             lambda: M.ContainedByDict({1: M.Never(), 'a': M.Never()}),
+                             lambda: M.ContainedByDict({K1: M.Never(), K2: M.Never(), Color.RED: M.Never(), Color.BLUE: M.Never()})]),
         ('MatchesException', [lambda: M.MatchesException(ValueError), lambda: M.MatchesException((KeyError, ValueError)), lambda: M.MatchesException(()),
                               lambda: M.MatchesException(ValueError(1)), lambda: M.MatchesException(ValueError((1, 2), 'x')), lambda: M.MatchesException(ValueError()),
                               lambda: M.MatchesException(ValueError, '2'), lambda: M.MatchesException(Exception, M.MatchesStructure(args=M.Equals((3,))))]),
@@ -132,9 +231,33 @@ def ctor_matchees():
     # dicts whose keys cannot be ordered with each other
     V += [('dict', lambda: {1: 'x', 'a': 'y'}), ('dict', lambda: {None: 0, 'a': 1, (1, 2): 2, b'k': 3}), ('dict', lambda: {1: 0, 'a': 0}),
           ('dict', lambda: {'a': 2, 1: 1})]
+    # round e: keys of one type that cannot be ordered; falsy / odd-== matchees
+    V += [('dict', lambda: {(1, 'a'): 0, ('a', 1): 1}), ('dict', lambda: {1j: 0, 2j: 1}), ('dict', lambda: {Color.RED: 0, Color.BLUE: 1}),
+          ('dict', lambda: {OBJKEY: 0, OBJKEY2: 1, (1, 'a'): 2, ('a', 1): 3, 1j: 4, 2j: 5}), ('dict', lambda: {0: 0, '': '', False: False} ),
+          ('bool', lambda: False), ('bool', lambda: True), ('zero', lambda: 0), ('bytes', lambda: b''), ('obj', lambda: AnyEq()), ('obj', lambda: NeverEq()),
+          ('obj', lambda: ArrayLike([1, 2])), ('list', lambda: [AnyEq(), 0, '', None, False]), ('tuple', lambda: (0, '', None))]
     return V
 
 
+def touches_fs(obj, depth=0):
+    """does the matcher (or a matcher inside it) hand its matchee to open() / os.stat()?"""
+    if depth > 6:
+        return False
+    if hasattr(obj, 'match') and not isinstance(obj, type):
+        if type(obj).__module__.endswith('_filesystem'):
+            return True
+        pred = getattr(obj, 'predicate', None)
+        if getattr(pred, '__module__', '') in ('genericpath', 'posixpath', 'os.path'):
+            return True
+        return any(touches_fs(x, depth + 1) for x in getattr(obj, '__dict__', {}).values())
+    if isinstance(obj, (list, tuple)):
+        return any(touches_fs(x, depth + 1) for x in obj)
+    if isinstance(obj, dict):
+        return any(touches_fs(x, depth + 1) for x in obj.values())
+    return False
+
+
+INT_LIKE = ('int', 'bool', 'zero')       # never given to filesystem matchers: open(<int>) adopts that file descriptor
 PATH_ROWS = {'PathExists', 'DirExists', 'FileExists', 'DirContains', 'FileContains', 'HasPermissions', 'SamePath', 'TarballContains'}
 
 
@@ -168,6 +291,8 @@ class C07(Prop):
             'text contains a quote, backslash, newline or non-printable; assert = a mismatch with details or existing details')
     assumptions = [
         'repr(), pprint.pformat(), % and str.format on the values of the universe are assumed total (exercised, not proved)',
+        'bool values are outside the matcher-expression universe (True == 1 would break structural equality); False / True / 0 / empty str, bytes, list, dict, set as expected values and as matchees, objects whose == answers True / False to everything or has no truth value (array-like), and dict keys without an order inside one type (complex, enum members, plain objects) are exercised through the ctor inputs only',
+        'mismatch objects are assumed truthy (every stock Mismatch is): a user-defined falsy Mismatch (e.g. one that is also an empty dict) is treated as "matched" by assertThat/assert_that, AllMatch, AnyMatch, MatchesListwise, the dict matchers and Raises, which test truthiness, but not by MatchesAll/MatchesAny/Not/Annotate, which test `is None` - reported, outside the alphabet',
         'constructor arguments of undocumented types are outside the alphabet: MatchesRegex(<compiled pattern>) fails to build its mismatch (pattern.decode), StartsWith/EndsWith(<tuple containing a newline>) fail in describe() (text_repr of a tuple), DocTestMatches(<bytes>) fails in the constructor',
         'describe() of the mismatches of opaque leaves (MatchesRegex, DocTestMatches, filesystem matchers, Warnings) is tested, not proved',
         'pyRepr / pyEval are models of CPython repr() and of string-literal evaluation, validated against repr / ast.literal_eval on every text_repr input; str.isprintable for code points >= 128 is an input of the model',
@@ -422,8 +547,15 @@ class C07(Prop):
             self._ctors = ctor_table()
             self._matchees = ctor_matchees()
             self._ctor_seen = {}
+            self._fs = {}
             self._ctor_missing = sorted(set(M.__all__) - {n for n, _ in self._ctors})
         return self._ctors
+
+    def fs_variant(self, row, variant):
+        k = (row, variant)
+        if k not in self._fs:
+            self._fs[k] = self._ctors[row][0] in PATH_ROWS or touches_fs(self._ctors[row][1][variant]())
+        return self._fs[k]
 
     def run_ctor(self, inp):
         from testtools.matchers import Annotate, MismatchError
@@ -437,6 +569,8 @@ class C07(Prop):
             if type(real).__name__ != cls:
                 return ['ctor-class-changed', type(real).__name__]
             kind, make = self._matchees[mi]
+            if kind in INT_LIKE and self.fs_variant(row, variant):
+                return ['unsafe-input', 'int-to-filesystem-matcher']
             value = make()
             matcher = Annotate.if_message('msg \xe9' if annotated else '', real)
             rs, _ = self.result(lambda: str(matcher), str)
@@ -461,7 +595,7 @@ class C07(Prop):
             row = rng.randrange(len(T))
             variant = rng.randrange(len(T[row][1]))
             mi = rng.randrange(len(self._matchees))
-            if T[row][0] in PATH_ROWS and self._matchees[mi][0] == 'int':
+            if self._matchees[mi][0] in INT_LIKE and self.fs_variant(row, variant):
                 continue
             if T[row][0] in PATH_ROWS and rng.random() < 0.5:
                 mi = rng.choice([i for i, (k, _) in enumerate(self._matchees) if k == 'path'])
@@ -542,7 +676,7 @@ class C07(Prop):
             for variant, make in enumerate(variants):
                 cls = type(make()).__name__
                 for mi, (kind, _) in enumerate(self._matchees):
-                    if name in PATH_ROWS and kind == 'int':
+                    if kind in INT_LIKE and self.fs_variant(row, variant):
                         continue
                     for a in (False, True):
                         for vb in (False, True):
